@@ -131,6 +131,23 @@ BRACKET_PAIRS = [
 ]
 
 
+COMMENT_BODIES = ["", "", " c ", "x", "* *", "//", " struct T { ", "'", '"', " a; ", "-"]
+
+
+def comment_only_sep(rnd, need: bool, nonl: bool) -> str:
+    """a separator without any white space: one or two block comments (sometimes with a line break inside, unless nonl); where the
+    tokens need no separator, sometimes nothing"""
+    if not need and rnd.random() < 0.3:
+        return ""
+    out = []
+    for _ in range(rnd.choice([1, 1, 1, 2])):
+        body = rnd.choice(COMMENT_BODIES)
+        if not nonl and rnd.random() < 0.15:
+            body += "\n"
+        out.append("/*" + body + "*/")
+    return "".join(out)
+
+
 def pad_brackets(rnd, text: str):
     """put a pad (blanks, tabs, a comment without newline) behind every `[` and in front of every `]` of a bracket pair that holds neither
     `;` nor a newline -> (text, features)"""
